@@ -39,6 +39,10 @@ def execLoop (E : SEng) (S : List Nat) : Nat → Nat → Option Caps
 /-- the search of §15.10.6.2 from index i (i ≤ length) -/
 def searchFrom (E : SEng) (S : List Nat) (i : Nat) : Option Caps := execLoop E S (S.length + 1 - i) i
 
+/-- §15.10.6.2 steps 4-5: lastIndex is read and ToInteger'd before step 7 looks at `global` (which only
+    discards the value): the conversion, with its side effects, happens for every expression -/
+def execConvertsLastIndex (_global : Bool) : Bool := true
+
 /-- §15.10.6.2 RegExp.prototype.exec: new object state and capture vector -/
 def execCore (E : SEng) (rx : RX) (S : List Nat) : RX × Option Caps :=
   let i : ExtInt := if rx.global then toInteger rx.lastIndex else .fin 0
